@@ -9,42 +9,35 @@ import MdVerif.Lemmas.PlaceholdersXLate
 import MdVerif.Lemmas.F.PlaceholdersXToc2
 import MdVerif.Lemmas.F.PlaceholdersXTree
 import MdVerif.Lemmas.F.PlaceholdersXAttr
+import MdVerif.Lemmas.F.PlaceholdersXRawF
 
 namespace MdVerif.NoCtlXF
+variable [MdVerif.NoCtlF.HtmlBound]
+set_option linter.unusedSectionVars false
 open Py
 open MdVerif.NoCtl hiding Bnd Clean Covered DNode DNode.mono DNode.toW EscOK FMSpec FNode FNodeX FoundOK HIOut HIOut.trans HISpec HIok IsTok ItemOK NestedOK Out Out.set_tail Out.tail PPInv PPInv.cons PPInv.reverse PPSpec RInv RawNode SNode SNode.mono SNode.toW Splice StOK StOK.push StrW StrW.mono TNode Unclean VInv WF WF.append WF.lstrip WF.mono WF.nil WF.of_noCtl WF.ph WF.plain WF.rstrip WF.split WF.split_aux WF.strip WF.tok WFO WNode WNode.children_irrel WNode.clean WNode.mono WNode.set_tail all_clean all_clean_list applyPattern_spec attrsTok backtick_stash_ok bnd_cons_right bnd_nil_left bnd_nil_right bnd_snoc_left brNode_raw brRule_fnode domChar_inner domS_escToken domS_placeholder domS_tok elStep_spec escOK_default escape_stash_ok find_ph_escToken find_ph_wf forall_DNode_mono forall_DNode_toW forall_WNode_mono handleInline_spec hiLoop_spec hiNode_spec hiNodes_spec hiOpt_spec hiSpec_of_fmSpec inner inner_cases inner_digit inner_ne isTok_escToken isTok_placeholder linebreak_stash_ok linkText_spec mapKids_fnode mapTree_fnode noCtl_of_wf not_strong_stash_ok petTail_spec petText_spec pet_both ppLoop_spec ppTop_spec preRule_fnode prettifyETree_fnode prettifyKids_fnode prettify_fnode procKids_spec procNode_spec processPlaceholders_spec runLoop_spec run_spec space_not_inner splice_of_span splice_out strW_append strW_none strW_some strW_zero_of_not_processed tok_append_split tok_split unclean_setAt_outside unescStep_fnode unescapeKids_fnode_some unescapeText_wf unescapeText_wf_some unescapeTree_fnode unescapeTree_fnode_some visitChild_spec visitLoop_spec visit_tail visit_text wf_escToken wf_false_zero_iff wf_placeholder
 open MdVerif.NoCtlF
 open MdVerif.NoCtlX hiding AbbrSegsOK BlockGood SerX abbrKids_fnode abbrKids_fnodeX abbrNode_fnode abbrNode_fnodeX abbrSlot_spec abbr_run_fnode abbr_run_fnodeX abbr_run_fnodeX_of assignAttrs_tok assignPairs_tok assignStep_tok attrDel_tok attrKids_fnodeX attrList_run_fnodeX attrNode_fnodeX attrsTok_of_noCtl baseAt_wf baseFrom_wf blockApply_str blockApply_tok blockRule_good blockSearch_wf brRule_fnodeX buildDiv_fnodeX buildLi_fnode buildLis_fnode convertX_noctl_generic convertX_noctl_of_front element_wf exLateTree_fnode exTocTree_fnodeX fnodeX_of_fnode fnodeX_of_fnode' forallL_fnodeX_of_fnode forall_fnodeX_of_fnode getA_tok getAttrsAndRemainder_wf handleQuoted_wf handleWord_wf headerSearch_wf heading_eq heading_new_id heading_spec idStep_spec inlineApply_tok inlineMatch_wf kids_tails lateTreeX_fnodeX lateX_noctl late_noctl lazyUntil_wf mapKids_fnodeX mapTree_fnodeX mkAbbr_fnode nameStep_spec not_mem_tok patKeyValue_wf patQuoted_wf patWord_wf preRule_fnodeX prettifyETree_fnodeX prettifyKids_fnodeX prettify_fnodeX renderInner_noctl replKids_fnodeX replNode_fnodeX rmFnKids_serX rmFnNode_serX scanStep_wf scan_wf search_wf segs_wf segs_wf_aux serX_of_fnodeX serX_tail serialize_wf serialize_wf_list serialize_wf_node setA_tok sortAttrs_tok splitEq_wf tailOv_wf tailRes_good textRes_good tocStageX_fnodeX toc_run_fnodeX unescAttrs_tok_some unescStep_fnodeX unescapeKids_fnodeX_some unescapeTree_fnodeX unescapeTree_fnodeX_some walkKids_spec walkNode_spec wf0_cons wf0_cut wf0_cut' wf0_cut_aux wf0_dropWhile_cut wf0_drop_suffix wf0_infix wf0_of_append_right wf0_rstripP wf0_span wf0_stripP wf0_tail wf_bind_tail wf_escAttrHtml wf_escCdata wf_of_append_noctl wf_pass wf_replace_char wf_serAmpSub wf_tail_of_ne_stx writeAttrs_wf
 
-/-- a string of ordinary characters and footnote tokens is one of p1's `FnWF` strings -/
-theorem wf_fnWF {s : Str} (h : WF false 0 s) : FnWF s := by
-  induction h with
-  | nil => exact .nil
-  | plain c s h1 h2 _ ih => exact .plain c s h1 h2 ih
-  | ph i s hi _ _ => omega
-  | tok v s hE _ _ _ => cases hE
-  | frn b s hb _ ih =>
-    rcases hb with rfl | rfl
-    · exact FnWFb.back s rfl ih
-    · exact FnWFb.nbsp s ih
+/-- the hypotheses on the raw-HTML stash and the parameters of the grammar: every raw-HTML placeholder that the grammar
+    admits is live, footnote tokens are admitted only when `FootnotePostprocessor` runs, no entry holds STX or ETX -/
+structure StashOK (x : PipelineX.Exts) (stash : List Str) : Prop where
+  h : HtmlBound.h ≤ stash.length
+  fn : HtmlBound.fn = x.footnotes
+  entries : ∀ e ∈ stash, NoCtl e
 
-/-- the postprocessors (raw_html 30 on the empty stash, footnote 25, amp_substitute 20) with footnotes on: ordinary
-    characters and footnote tokens in, no STX/ETX out -/
-theorem postX_fwf {x : PipelineX.Exts} (hfn : x.footnotes = true) (cfg : Pipeline.Cfg) :
-    PostOK (PipelineX.postX x cfg []) := by
+/-- the postprocessors (raw_html 30, footnote 25 when enabled, amp_substitute 20): ordinary characters, footnote
+    tokens and live raw-HTML placeholders in, no STX/ETX out -/
+theorem postX_fwf {x : PipelineX.Exts} (cfg : Pipeline.Cfg) {stash : List Str} (hst : StashOK x stash) :
+    PostOK (PipelineX.postX x cfg stash) := by
   intro s hs o ho
-  unfold PipelineX.postX at ho
-  have e : Post.rawHtml cfg.blockLevel [] (Post.rawHtmlFuel []) s = some s := rfl
-  rw [e] at ho
-  simp only [Option.map_some, Option.some.injEq, hfn, if_true] at ho
-  subst ho
-  exact ampSub_noctl (postprocess_noctl_of (wf_fnWF hs))
+  exact postX_fnOut hst.fn cfg hst.h hst.entries hs ho
 
 /-- prettify, attr_list (when enabled) and abbr (when enabled; no abbreviation or title with STX/ETX, no abbreviation
     that is a number or the body of a footnote token) keep `FNodeX` -/
 theorem lateTreeX_fnodeX (x : PipelineX.Exts) (bl : List Str) {abbrs : List (Str × Str)}
     (habbr : x.abbr = true →
-      (∀ kv ∈ abbrs, NoCtl kv.1 ∧ NoCtl kv.2) ∧ noDigitsAbbr abbrs = true ∧ noFrnAbbr abbrs = true)
+      (∀ kv ∈ abbrs, NoCtl kv.1 ∧ NoCtl kv.2) ∧ noDigitsAbbr abbrs = true ∧ NoFrnAbbr abbrs)
     {t : Node} (ht : t.Forall FNodeX) : (lateTreeX x bl abbrs t).Forall FNodeX := by
   unfold lateTreeX
   simp only
@@ -58,12 +51,12 @@ theorem lateTreeX_fnodeX (x : PipelineX.Exts) (bl : List Str) {abbrs : List (Str
   · next ha => exact abbr_run_fnodeX h2 (habbr ha).1 (habbr ha).2.1 (habbr ha).2.2
   · exact h2
 
-/-- the toc stage (when enabled) keeps `FNodeX`; raw-HTML stash empty, footnotes on -/
-theorem tocStageX_fnodeX {x : PipelineX.Exts} (hfn : x.footnotes = true) (cfg : Pipeline.Cfg) {t t' : Node}
-    (ht : t.Forall FNodeX) (h : tocStageX x cfg [] t = .ok t') : t'.Forall FNodeX := by
+/-- the toc stage (when enabled) keeps `FNodeX` -/
+theorem tocStageX_fnodeX {x : PipelineX.Exts} (cfg : Pipeline.Cfg) {stash : List Str} (hst : StashOK x stash)
+    {t t' : Node} (ht : t.Forall FNodeX) (h : tocStageX x cfg stash t = .ok t') : t'.Forall FNodeX := by
   unfold tocStageX at h
   split at h
-  · exact toc_run_fnodeX ht h (postX_fwf hfn cfg)
+  · exact toc_run_fnodeX ht h (postX_fwf cfg hst)
   · injection h with h
     subst h; exact ht
 
@@ -116,10 +109,10 @@ theorem topLevelStrip_fwf {s out : Str} (h : WF false 0 s) (hr : Post.topLevelSt
       subst hr; exact .nil
     · cases hr
 
-/-- the end of `convertX` with footnotes on (`<div>` strip, raw_html 30 on the empty stash, footnote 25,
-    amp_substitute 20, `.strip()`): ordinary characters and footnote tokens in, no STX/ETX out -/
-theorem finishX_fwf {x : PipelineX.Exts} (hfn : x.footnotes = true) (cfg : Pipeline.Cfg) {output out : Str}
-    (h : WF false 0 output) (hf : PipelineX.finishX x cfg [] output = .ok out) : NoCtl out := by
+/-- the end of `convertX` (`<div>` strip, raw_html 30, footnote 25 when enabled, amp_substitute 20, `.strip()`):
+    ordinary characters, footnote tokens and live raw-HTML placeholders in, no STX/ETX out -/
+theorem finishX_fwf {x : PipelineX.Exts} (cfg : Pipeline.Cfg) {stash : List Str} (hst : StashOK x stash)
+    {output out : Str} (h : WF false 0 output) (hf : PipelineX.finishX x cfg stash output = .ok out) : NoCtl out := by
   unfold PipelineX.finishX at hf
   split at hf
   · cases hf
@@ -129,15 +122,16 @@ theorem finishX_fwf {x : PipelineX.Exts} (hfn : x.footnotes = true) (cfg : Pipel
     · next r hr =>
       simp only [Pipeline.Outcome.ok.injEq] at hf
       subst hf
-      exact (postX_fwf hfn cfg _ (topLevelStrip_fwf h hs) _ hr).strip
+      exact (postX_fwf cfg hst _ (topLevelStrip_fwf h hs) _ hr).strip
 
-/-- the tail of `treeX` behind `FootnotePostTreeprocessor` on a tree of `FNodeX` elements with an empty raw-HTML
-    stash: the tree handed to the serialiser holds STX/ETX only inside footnote tokens, the stash is still empty -/
-theorem lateX_fwf {x : PipelineX.Exts} (hfn : x.footnotes = true) (cfg : Pipeline.Cfg) {abbrs : List (Str × Str)}
+/-- the tail of `treeX` behind `FootnotePostTreeprocessor` on a tree of `FNodeX` elements: the tree handed to the
+    serialiser holds STX/ETX only inside foreign tokens, the stash is the same -/
+theorem lateX_fwf {x : PipelineX.Exts} (cfg : Pipeline.Cfg) {stash : List Str} (hst : StashOK x stash)
+    {abbrs : List (Str × Str)}
     (habbr : x.abbr = true →
-      (∀ kv ∈ abbrs, NoCtl kv.1 ∧ NoCtl kv.2) ∧ noDigitsAbbr abbrs = true ∧ noFrnAbbr abbrs = true)
+      (∀ kv ∈ abbrs, NoCtl kv.1 ∧ NoCtl kv.2) ∧ noDigitsAbbr abbrs = true ∧ NoFrnAbbr abbrs)
     {t : Node} (ht : t.Forall FNodeX) {u : Node} {html : List Str}
-    (h : lateX x cfg abbrs t [] = .ok u html) : TreeFWF u ∧ html = [] := by
+    (h : lateX x cfg abbrs t stash = .ok u html) : TreeFWF u ∧ html = stash := by
   unfold lateX at h
   split at h
   · cases h
@@ -150,18 +144,29 @@ theorem lateX_fwf {x : PipelineX.Exts} (hfn : x.footnotes = true) (cfg : Pipelin
       injection h with h1 h2
       subst h1 h2
       have h3 := lateTreeX_fnodeX x cfg.blockLevel habbr ht
-      exact ⟨unescapeTree_fnodeX (tocStageX_fnodeX hfn cfg h3 h4) hu, rfl⟩
+      exact ⟨unescapeTree_fnodeX (tocStageX_fnodeX cfg hst h3 h4) hu, rfl⟩
 
-/-- **the generic tail with footnotes on**: `t` = the tree after `FootnotePostTreeprocessor` (a tree of `FNodeX`
-    elements: escape tokens and footnote tokens, no escape token in `code` text), raw-HTML stash empty; whatever the
-    rest of `convertX` answers contains neither STX nor ETX -/
-theorem late_noctl_fn {x : PipelineX.Exts} (hfn : x.footnotes = true) (cfg : Pipeline.Cfg) {abbrs : List (Str × Str)}
+/-- **the generic tail**: `t` = the tree after `FootnotePostTreeprocessor` (a tree of `FNodeX` elements: escape tokens
+    and foreign tokens, no escape token in `code` text), `stash` the raw-HTML stash; whatever the rest of `convertX`
+    answers contains neither STX nor ETX -/
+theorem late_noctl_st {x : PipelineX.Exts} (cfg : Pipeline.Cfg) {stash : List Str} (hst : StashOK x stash)
+    {abbrs : List (Str × Str)}
     (habbr : x.abbr = true →
-      (∀ kv ∈ abbrs, NoCtl kv.1 ∧ NoCtl kv.2) ∧ noDigitsAbbr abbrs = true ∧ noFrnAbbr abbrs = true)
+      (∀ kv ∈ abbrs, NoCtl kv.1 ∧ NoCtl kv.2) ∧ noDigitsAbbr abbrs = true ∧ NoFrnAbbr abbrs)
     {t : Node} (ht : t.Forall FNodeX) {u : Node} {html : List Str} {out : Str}
-    (h : lateX x cfg abbrs t [] = .ok u html)
+    (h : lateX x cfg abbrs t stash = .ok u html)
     (hf : PipelineX.finishX x cfg html (Ser.serialize cfg.fmt u) = .ok out) : NoCtl out := by
-  obtain ⟨hu, rfl⟩ := lateX_fwf hfn cfg habbr ht h
-  exact finishX_fwf hfn cfg (serialize_fwf cfg.fmt hu) hf
+  obtain ⟨hu, rfl⟩ := lateX_fwf cfg hst habbr ht h
+  exact finishX_fwf cfg hst (serialize_fwf cfg.fmt hu) hf
+
+/-- the generic tail with footnotes on and an empty raw-HTML stash -/
+theorem late_noctl_fn {x : PipelineX.Exts} (hfn : x.footnotes = true) (hf : HtmlBound.fn = true) (cfg : Pipeline.Cfg)
+    {abbrs : List (Str × Str)}
+    (habbr : x.abbr = true →
+      (∀ kv ∈ abbrs, NoCtl kv.1 ∧ NoCtl kv.2) ∧ noDigitsAbbr abbrs = true ∧ NoFrnAbbr abbrs)
+    {t : Node} (ht : t.Forall FNodeX) {u : Node} {html : List Str} {out : Str}
+    (hh : HtmlBound.h = 0) (h : lateX x cfg abbrs t [] = .ok u html)
+    (hfin : PipelineX.finishX x cfg html (Ser.serialize cfg.fmt u) = .ok out) : NoCtl out :=
+  late_noctl_st cfg ⟨by omega, by rw [hf, hfn], by simp⟩ habbr ht h hfin
 
 end MdVerif.NoCtlXF
